@@ -19,6 +19,9 @@ Model/Mon.vos Model/Mon.vok Model/Mon.required_vos: Model/Mon.v Model/Sys.vos
 Model/MonC09.vo Model/MonC09.glob Model/MonC09.v.beautified Model/MonC09.required_vo: Model/MonC09.v Model/Mon.vo
 Model/MonC09.vio: Model/MonC09.v Model/Mon.vio
 Model/MonC09.vos Model/MonC09.vok Model/MonC09.required_vos: Model/MonC09.v Model/Mon.vos
+Model/MonC01.vo Model/MonC01.glob Model/MonC01.v.beautified Model/MonC01.required_vo: Model/MonC01.v Model/Mon.vo
+Model/MonC01.vio: Model/MonC01.v Model/Mon.vio
+Model/MonC01.vos Model/MonC01.vok Model/MonC01.required_vos: Model/MonC01.v Model/Mon.vos
 Proofs/Framework.vo Proofs/Framework.glob Proofs/Framework.v.beautified Proofs/Framework.required_vo: Proofs/Framework.v Model/Mon.vo
 Proofs/Framework.vio: Proofs/Framework.v Model/Mon.vio
 Proofs/Framework.vos Proofs/Framework.vok Proofs/Framework.required_vos: Proofs/Framework.v Model/Mon.vos
@@ -34,9 +37,24 @@ Proofs/Discipline.vos Proofs/Discipline.vok Proofs/Discipline.required_vos: Proo
 Proofs/SysInv.vo Proofs/SysInv.glob Proofs/SysInv.v.beautified Proofs/SysInv.required_vo: Proofs/SysInv.v Model/Mon.vo Proofs/StoreLocks.vo Proofs/StorePromises.vo Proofs/Discipline.vo
 Proofs/SysInv.vio: Proofs/SysInv.v Model/Mon.vio Proofs/StoreLocks.vio Proofs/StorePromises.vio Proofs/Discipline.vio
 Proofs/SysInv.vos Proofs/SysInv.vok Proofs/SysInv.required_vos: Proofs/SysInv.v Model/Mon.vos Proofs/StoreLocks.vos Proofs/StorePromises.vos Proofs/Discipline.vos
-Proofs/PC09.vo Proofs/PC09.glob Proofs/PC09.v.beautified Proofs/PC09.required_vo: Proofs/PC09.v Model/Mon.vo Model/MonC09.vo Proofs/Framework.vo Proofs/StoreLocks.vo Proofs/Discipline.vo Proofs/SysInv.vo
-Proofs/PC09.vio: Proofs/PC09.v Model/Mon.vio Model/MonC09.vio Proofs/Framework.vio Proofs/StoreLocks.vio Proofs/Discipline.vio Proofs/SysInv.vio
-Proofs/PC09.vos Proofs/PC09.vok Proofs/PC09.required_vos: Proofs/PC09.v Model/Mon.vos Model/MonC09.vos Proofs/Framework.vos Proofs/StoreLocks.vos Proofs/Discipline.vos Proofs/SysInv.vos
+Proofs/Eqb.vo Proofs/Eqb.glob Proofs/Eqb.v.beautified Proofs/Eqb.required_vo: Proofs/Eqb.v Model/Mon.vo
+Proofs/Eqb.vio: Proofs/Eqb.v Model/Mon.vio
+Proofs/Eqb.vos Proofs/Eqb.vok Proofs/Eqb.required_vos: Proofs/Eqb.v Model/Mon.vos
+Proofs/PC09.vo Proofs/PC09.glob Proofs/PC09.v.beautified Proofs/PC09.required_vo: Proofs/PC09.v Model/Mon.vo Model/MonC09.vo Proofs/Framework.vo Proofs/StoreLocks.vo Proofs/Discipline.vo Proofs/SysInv.vo Proofs/Eqb.vo
+Proofs/PC09.vio: Proofs/PC09.v Model/Mon.vio Model/MonC09.vio Proofs/Framework.vio Proofs/StoreLocks.vio Proofs/Discipline.vio Proofs/SysInv.vio Proofs/Eqb.vio
+Proofs/PC09.vos Proofs/PC09.vok Proofs/PC09.required_vos: Proofs/PC09.v Model/Mon.vos Model/MonC09.vos Proofs/Framework.vos Proofs/StoreLocks.vos Proofs/Discipline.vos Proofs/SysInv.vos Proofs/Eqb.vos
+Proofs/PC01.vo Proofs/PC01.glob Proofs/PC01.v.beautified Proofs/PC01.required_vo: Proofs/PC01.v Model/Mon.vo Model/MonC01.vo Proofs/Framework.vo Proofs/StoreLocks.vo Proofs/StorePromises.vo Proofs/Discipline.vo Proofs/SysInv.vo Proofs/Eqb.vo
+Proofs/PC01.vio: Proofs/PC01.v Model/Mon.vio Model/MonC01.vio Proofs/Framework.vio Proofs/StoreLocks.vio Proofs/StorePromises.vio Proofs/Discipline.vio Proofs/SysInv.vio Proofs/Eqb.vio
+Proofs/PC01.vos Proofs/PC01.vok Proofs/PC01.required_vos: Proofs/PC01.v Model/Mon.vos Model/MonC01.vos Proofs/Framework.vos Proofs/StoreLocks.vos Proofs/StorePromises.vos Proofs/Discipline.vos Proofs/SysInv.vos Proofs/Eqb.vos
+Proofs/PC16.vo Proofs/PC16.glob Proofs/PC16.v.beautified Proofs/PC16.required_vo: Proofs/PC16.v Model/Mon.vo Proofs/StoreLocks.vo Proofs/StorePromises.vo Proofs/Eqb.vo
+Proofs/PC16.vio: Proofs/PC16.v Model/Mon.vio Proofs/StoreLocks.vio Proofs/StorePromises.vio Proofs/Eqb.vio
+Proofs/PC16.vos Proofs/PC16.vok Proofs/PC16.required_vos: Proofs/PC16.v Model/Mon.vos Proofs/StoreLocks.vos Proofs/StorePromises.vos Proofs/Eqb.vos
 Props/C09.vo Props/C09.glob Props/C09.v.beautified Props/C09.required_vo: Props/C09.v Model/Mon.vo Model/MonC09.vo Proofs/StoreLocks.vo Proofs/Discipline.vo Proofs/SysInv.vo Proofs/PC09.vo
 Props/C09.vio: Props/C09.v Model/Mon.vio Model/MonC09.vio Proofs/StoreLocks.vio Proofs/Discipline.vio Proofs/SysInv.vio Proofs/PC09.vio
 Props/C09.vos Props/C09.vok Props/C09.required_vos: Props/C09.v Model/Mon.vos Model/MonC09.vos Proofs/StoreLocks.vos Proofs/Discipline.vos Proofs/SysInv.vos Proofs/PC09.vos
+Props/C01.vo Props/C01.glob Props/C01.v.beautified Props/C01.required_vo: Props/C01.v Model/Mon.vo Model/MonC01.vo Proofs/StoreLocks.vo Proofs/StorePromises.vo Proofs/Discipline.vo Proofs/SysInv.vo Proofs/PC01.vo
+Props/C01.vio: Props/C01.v Model/Mon.vio Model/MonC01.vio Proofs/StoreLocks.vio Proofs/StorePromises.vio Proofs/Discipline.vio Proofs/SysInv.vio Proofs/PC01.vio
+Props/C01.vos Props/C01.vok Props/C01.required_vos: Props/C01.v Model/Mon.vos Model/MonC01.vos Proofs/StoreLocks.vos Proofs/StorePromises.vos Proofs/Discipline.vos Proofs/SysInv.vos Proofs/PC01.vos
+Props/C16.vo Props/C16.glob Props/C16.v.beautified Props/C16.required_vo: Props/C16.v Model/Mon.vo Proofs/StoreLocks.vo Proofs/StorePromises.vo Proofs/PC16.vo
+Props/C16.vio: Props/C16.v Model/Mon.vio Proofs/StoreLocks.vio Proofs/StorePromises.vio Proofs/PC16.vio
+Props/C16.vos Props/C16.vok Props/C16.required_vos: Props/C16.v Model/Mon.vos Proofs/StoreLocks.vos Proofs/StorePromises.vos Proofs/PC16.vos
